@@ -361,3 +361,15 @@ def run(ctx):
         "samples": acc.samples[:3],
         "exhaustive": True,
     }
+
+
+def replay(ctx, data):
+    """Re-run the recorded (old, new, context) case with perturbations and the external patcher."""
+    inp = data["first"]["input"]
+    acc = par.Acc()
+    vs = _u5.SmallestViolations(acc)
+    old = tuple(x.encode("utf-8") for x in inp["old"])
+    new = tuple(x.encode("utf-8") for x in inp["new"])
+    check_pair(_mods(), old, new, inp["context"], acc, vs, SYM4, perturb=True, external=True)
+    vs.flush()
+    return data["signature"] not in [s for s, _ in acc.violations]
